@@ -219,3 +219,24 @@ theorem zipMask_ok (nan : V) : ∀ (raw : List ((Nat → V) → V)) (dds : List 
       exact All2.cons (fun env => applyMask_ok nan _ _ _ hd hm env) (ih _ hrest)
 
 end PymocaVerif.CacheMeta
+
+namespace PymocaVerif.CacheMeta
+
+theorem PExpr.eval_indep (e : PExpr) (h : e.hasParam = false) (env env' : Nat → Option Int) :
+    e.eval env = e.eval env' := by
+  induction e with
+  | const v => rfl
+  | nan => rfl
+  | param k => simp [PExpr.hasParam] at h
+  | neg a ih => simp only [PExpr.hasParam] at h; simp only [PExpr.eval, ih h]
+  | add a b iha ihb =>
+    simp only [PExpr.hasParam, Bool.or_eq_false_iff] at h
+    simp only [PExpr.eval, iha h.1, ihb h.2]
+  | sub a b iha ihb =>
+    simp only [PExpr.hasParam, Bool.or_eq_false_iff] at h
+    simp only [PExpr.eval, iha h.1, ihb h.2]
+  | mul a b iha ihb =>
+    simp only [PExpr.hasParam, Bool.or_eq_false_iff] at h
+    simp only [PExpr.eval, iha h.1, ihb h.2]
+
+end PymocaVerif.CacheMeta
